@@ -703,12 +703,13 @@ fn src_crop<'a, P: InnerPixel>(
     parent: &'a TypedImageRef<'a, P>,
 ) -> TypedCroppedImage<'a, TypedImageRef<'a, P>> {
     let g = sb.g;
+    let [l, t, w, h] = si.view_override.unwrap_or([g.ox, g.oy, g.w, g.h]);
     match si.kind {
         Kind::CropNew => {
             let p = unsafe { TypedImageRef::<P>::new(g.pw, g.ph, sb.raw_pixels::<P>()).unwrap() };
-            TypedCroppedImage::new(p, g.ox, g.oy, g.w, g.h).unwrap()
+            TypedCroppedImage::new(p, l, t, w, h).unwrap()
         }
-        _ => TypedCroppedImage::from_ref(parent, g.ox, g.oy, g.w, g.h).unwrap(),
+        _ => TypedCroppedImage::from_ref(parent, l, t, w, h).unwrap(),
     }
 }
 
@@ -986,7 +987,8 @@ pub fn with_dyn2<R, O: DynOp2<R>>(
         }
         (S::DCrop, D::DImg) => {
             let p = dsrc_ref(sb, spt);
-            let s = CroppedImage::new(&p, sg.ox, sg.oy, sg.w, sg.h).unwrap();
+            let [l, t, w, h] = si.view_override.unwrap_or([sg.ox, sg.oy, sg.w, sg.h]);
+            let s = CroppedImage::new(&p, l, t, w, h).unwrap();
             with_ddst_img(di, db, dpt, |d| op.call(&s, d))
         }
         (S::DRef, D::DCrop) => unsafe {
